@@ -20,6 +20,7 @@ import (
 	"path/filepath"
 	"strconv"
 	"testing"
+	"time"
 
 	"github.com/ollama/ollama/api"
 	"github.com/ollama/ollama/discover"
@@ -230,6 +231,7 @@ func c16case(c map[string]any) any {
 
 	gpus := c16gpus(c["gpus"])
 	s := &Scheduler{loaded: map[string]*runnerRef{}}
+	var runnerList []*runnerRef
 	if l, ok := c["runners"].([]any); ok {
 		for i, x := range l {
 			rm := x.(map[string]any)
@@ -250,6 +252,7 @@ func c16case(c map[string]any) any {
 				r.llama = m
 			}
 			s.loaded[r.modelPath] = r
+			runnerList = append(runnerList, r)
 		}
 	}
 	req := &LlmRequest{ctx: context.Background(), model: &Model{ModelPath: path, ProjectorPaths: projectors}, opts: opts, origNumCtx: orig}
@@ -262,6 +265,29 @@ func c16case(c map[string]any) any {
 		// processPending, "More than one loaded model, so we have to see if the new one fits"
 		avail := s.filterGPUsWithoutLoadingModels(gpus)
 		res["filtered"] = c16gpuOut(avail)
+		if h, ok := c["hold"].(float64); ok && int(h) < 0 {
+			// ... or the scheduler's loadedMu
+			held := make(chan struct{})
+			go func() {
+				s.loadedMu.Lock()
+				close(held)
+				time.Sleep(time.Duration(c16int(c["hold_ms"])) * time.Millisecond)
+				s.loadedMu.Unlock()
+			}()
+			<-held
+		} else if ok && int(h) < len(runnerList) {
+			// another goroutine (processCompleted, the expiry timer callback, useLoadedRunner) holds this runner's refMu for a
+			// moment while updateFreeSpace runs: updateFreeSpace has to wait for it, the answer must not depend on it
+			r := runnerList[int(h)]
+			held := make(chan struct{})
+			go func() {
+				r.refMu.Lock()
+				close(held)
+				time.Sleep(time.Duration(c16int(c["hold_ms"])) * time.Millisecond)
+				r.refMu.Unlock()
+			}()
+			<-held
+		}
 		s.updateFreeSpace(avail)
 		res["avail"] = c16gpuOut(avail)
 		chosen = pickBestFullFitByLibrary(req, f, avail, &numParallel)
